@@ -3,6 +3,7 @@
 mod util;
 mod cp;
 mod framing;
+mod timing;
 
 use util::*;
 
@@ -16,6 +17,8 @@ fn main() {
         ("cp", "record") => cp::record(&args, &mut s),
         ("framing", "replay") => framing::replay(&args, &mut s),
         ("framing", "record") => framing::record(&args, &mut s),
+        ("timing", "replay") => timing::replay(&args, &mut s),
+        ("timing", "record") => timing::record(&args, &mut s),
         (m, o) => {
             eprintln!("unknown module/mode {m} {o}");
             std::process::exit(2);
